@@ -54,24 +54,28 @@ theorem big_pos : (0 : K) < @big K (fieldNum K sq) := by
 
 /-- **`dilate_by_factor(dil)` with `dil ≥ 0`** enlarges valid boxes (and keeps them valid), leaves the invalid sentinel
 alone; the merged box of four lanes that are valid or the sentinel is valid or the sentinel -/
-theorem dilateLaws_fieldNum (dil : K) (hd : 0 ≤ dil) : @DilateLaws K (fieldNum K sq) dil := by
+theorem dilateLaws_fieldNum (dil : K) (hd : 0 ≤ dil) : @DilateLaws K (fieldNum K sq) dil (@VoS K (fieldNum K sq)) := by
   let _ := fieldNum K sq
   have hbig := big_pos (K := K) sq
-  refine ⟨?_, ?_, ?_⟩
-  · intro b hb
-    obtain ⟨hx, hy, hz⟩ := hb
-    have dx : 0 ≤ b.maxs.x * dil - b.mins.x * dil := by nlinarith
-    have dy : 0 ≤ b.maxs.y * dil - b.mins.y * dil := by nlinarith
-    have dz : 0 ≤ b.maxs.z * dil - b.mins.z * dil := by nlinarith
-    constructor
-    · simp only [ValidBox, dilateBox, hx, if_true]
-      refine ⟨?_, ?_, ?_⟩ <;> linarith
-    · rw [boxContains_iff']
-      simp only [dilateBox, hx, if_true]
-      refine ⟨⟨?_, ?_, ?_⟩, ?_, ?_, ?_⟩ <;> linarith
-  · have hn : ¬ ((@big K (fieldNum K sq)) ≤ -(@big K (fieldNum K sq))) := by
+  have hinvd : dilateBox dil (invalidBox : Aabb3 K) = invalidBox := by
+    have hn : ¬ ((@big K (fieldNum K sq)) ≤ -(@big K (fieldNum K sq))) := by
       intro h; linarith
     simp only [dilateBox, invalidBox, hn, if_false, mul_zero, sub_zero, add_zero]
+  refine ⟨?_, Or.inr rfl, ?_⟩
+  · intro b hb
+    rcases hb with hb | rfl
+    · obtain ⟨hx, hy, hz⟩ := hb
+      have dx : 0 ≤ b.maxs.x * dil - b.mins.x * dil := by nlinarith
+      have dy : 0 ≤ b.maxs.y * dil - b.mins.y * dil := by nlinarith
+      have dz : 0 ≤ b.maxs.z * dil - b.mins.z * dil := by nlinarith
+      constructor
+      · left
+        simp only [ValidBox, dilateBox, hx, if_true]
+        refine ⟨?_, ?_, ?_⟩ <;> linarith
+      · rw [boxContains_iff']
+        simp only [dilateBox, hx, if_true]
+        refine ⟨⟨?_, ?_, ?_⟩, ?_, ?_, ?_⟩ <;> linarith
+    · rw [hinvd]; exact ⟨Or.inr rfl, (boxLaws_fieldNum sq).refl _⟩
   · intro v hv
     by_cases hex : ∃ (l : Nat) (b : Aabb3 K), v[l]? = some b ∧ ValidBox b
     · obtain ⟨l, b, hb, ⟨hx, hy, hz⟩⟩ := hex
@@ -86,3 +90,19 @@ theorem dilateLaws_fieldNum (dil : K) (hd : 0 ≤ dil) : @DilateLaws K (fieldNum
         · exact h
       simp only [mergedBox, hall 0 (by omega), hall 1 (by omega), hall 2 (by omega), hall 3 (by omega), invalidBox,
         fieldNum_nmin, fieldNum_nmax, min_self, max_self]
+
+/-- **`dilate_by_factor(0)` changes no box at all** (valid or not) -/
+theorem dilateLaws_zero : @DilateLaws K (fieldNum K sq) 0 (fun _ => True) := by
+  let _ := fieldNum K sq
+  refine ⟨fun b _ => ⟨trivial, ?_⟩, trivial, fun _ _ => trivial⟩
+  have : dilateBox (0 : K) b = b := by
+    simp only [dilateBox, ite_self, mul_zero, sub_zero, add_zero]
+  rw [this]; exact (boxLaws_fieldNum sq).refl _
+
+/-- `Aabb::merge` contains both arguments -/
+theorem mergeBox_contains (a b : Aabb3 K) :
+    letI := fieldNum K sq
+    boxContains (mergeBox a b) a = true ∧ boxContains (mergeBox a b) b = true := by
+  let _ := fieldNum K sq
+  constructor <;> rw [boxContains_iff'] <;>
+    simp [mergeBox, V3.inf, V3.sup, fieldNum_nmin, fieldNum_nmax]
